@@ -20,7 +20,37 @@ def pred(v, code, m):
     return preds.c03_positions(code, m)
 
 
+def incremental_positions(ctx, n):
+    """positions must also be true in trees returned by the incremental parser (diff_cache=True) after edit histories"""
+    import parso
+    from parso import cache as pcache
+    from harness.props import C04
+    from harness import gens
+    vs = streams.versions()
+    for i in range(n):
+        r = gens.rng(ctx.seed, 'c03-hist', i)
+        hist = C04.gen_history(r)
+        v = r.choice(vs)
+        g = parso.load_grammar(version=v)
+        path = '/verif/.work/c03-virtual-%d.py' % i
+        pcache.parser_cache.pop(g._hashed, None)
+        for step, text in enumerate(hist):
+            ctx.count('c03-history-steps')
+            try:
+                m = g.parse(text, diff_cache=True, path=path)
+                sig = preds.c03_positions(text, m)
+            except RecursionError:
+                break
+            except Exception as e:
+                sig = preds.crash_sig(e)
+            if sig:
+                ctx.violation(sig + ':after-incremental-parse', dict(kind='history', version=v, steps=hist[:step + 1], failing_step=step))
+                break
+        pcache.parser_cache.pop(g._hashed, None)
+
+
 def run(ctx, b, drv):
+    incremental_positions(ctx, base.scale(ctx, 60))
     pend0 = base.Pending(ctx)
     base.mismatches(ctx, pend0, streams.run_endpos(ctx, base.scale(ctx, 600), drv), lambda case: 'C03:end_pos-is-not-the-walk-of-the-value')
     pend0.flush()
